@@ -139,6 +139,47 @@ def ho_case(draw):
                 seed=draw(st.integers(0, 255)))
 
 
+@st.composite
+def stall_burst(draw):
+    """a thread loses the CPU at 1..4 of its scheduling points close together"""
+    who = draw(st.sampled_from(["serve", "serve", "client"]))
+    n = draw(st.integers(1, 160))
+    d = draw(st.sampled_from([0.002, 0.005, 0.02, 0.05, 0.2]))
+    out = []
+    for _ in range(draw(st.integers(1, 4))):
+        out.append((who, n, d))
+        n += draw(st.integers(1, 3))
+    return out
+
+
+@st.composite
+def lag_case(draw):
+    """many fragments through a small receive window while the consuming
+    application threads lose the CPU at generated points: the LLC threads
+    keep exchanging PDUs, the receive queue fills"""
+    kind = draw(st.sampled_from(["put", "get", "handover"]))
+    case = draw(ho_case() if kind == "handover" else snep_case(kind))
+    case["miu_i"] = draw(st.sampled_from([128, 248]))
+    case["miu_t"] = draw(st.sampled_from([128, 248]))
+    case["srv_miu"] = 128
+    case["srv_rw"] = draw(st.integers(2, 7))
+    big = draw(st.integers(5, 22)) * 128 + draw(st.integers(-7, 7))
+    if kind == "handover":
+        case["cli_miu"] = 128
+        case["cli_rw"] = draw(st.integers(2, 7))
+        case["psize"] = big
+        case["qsize"] = draw(st.integers(5, 22)) * 128
+    else:
+        case["size"] = big
+        case["limit"] = None
+        if kind == "get":
+            case["rsize"] = draw(st.integers(5, 22)) * 128
+            case["climit"] = None
+    case["stalls"] = [x for b in draw(st.lists(stall_burst(), min_size=1,
+                                               max_size=4)) for x in b]
+    return case
+
+
 def norm_size(n):
     return 0 if n <= 0 else (3 if n < 6 else n)
 
@@ -155,6 +196,7 @@ def run(case, ctx):
                       "lrt": case["lrt"], "brs": case["brs"]}
     P = p2p.Pair(case["choices"], seed=case["seed"], opts_i=opts["i"],
                  opts_t=opts["t"])
+    P.sched.stalls = [list(x) for x in case.get("stalls", [])]
     seen = []          # what reached the server application
     raw = []           # raw request octets at the server
     out = {}
@@ -340,6 +382,8 @@ def run(case, ctx):
     if nfrag >= 2:
         ctx.nontrivial()
         ctx.label("fragmented")
+    if P.sched.stalled:
+        ctx.label("stalled:%d" % min(P.sched.stalled, 4))
     if stuck:
         ctx.label("threads-killed-at-shutdown")
     ctx.note({"frames_on_air": len(P.air.log), "fragments": nfrag,
@@ -359,6 +403,15 @@ def _leg(name, gen, q, t):
 
 
 LEGS = [
+    Leg("lag", run=run, gen=lambda tier: lag_case(), quick=600,
+        thorough=12000, shards_quick=6, shards_thorough=16, nt_floor=0.2,
+        rule="5..22 fragments each way through receive windows of 2..7 at "
+             "MIU 128 while the consuming application threads (server "
+             "connection thread, client) are descheduled for 2..200 ms of "
+             "virtual time in 1..4 bursts of 1..4 nearby scheduling points "
+             "at which they hold no lock; non-trivial "
+             "= fragmented (always) - the stalled:N labels count cases in "
+             "which N stalls fired."),
     _leg("snep-put", snep_case("put"), 700, 12000),
     _leg("snep-get", snep_case("get"), 700, 10000),
     _leg("handover", ho_case(), 500, 8000),
